@@ -457,6 +457,14 @@ def rule_removal_keeps_screen_current(ctx, crate, rule="R-REMOVAL-REPAINTS"):
             else:
                 ok = bool(draws) and b.must_pass([c.target] if c.target is not None else [], draws)
                 how = "(a) the region is repainted before returning"
+                # .. and that repaint is not left to the rate limiter: a refused frame is the stale frame again (seed C02k)
+                forced = {x.bb for x in b.calls(r"multi::MultiState::draw") if len(x.args) > 1 and
+                          D.implied_true(b, x.args[1], x.bb, lambda l_, d_: False, set())}
+                okf = bool(forced) and b.must_pass([c.target] if c.target is not None else [], forced)
+                ctx.check(okf or not ok, rule, "removal-repaint-forced:%s" % K.meth(b.name), b.name, c.loc(),
+                          "the repaint that takes the removed bar's lines off the screen is forced (force_draw = true)",
+                          "%s repaints through the rate limiter after taking a bar out of the ordering: with the limiter exhausted the frame is refused, the removed "
+                          "bar's lines stay on the screen and the row accounting no longer matches the ordering (the next in-place reap keeps the wrong row)" % K.meth(b.name), cfg)
             ctx.check(ok, rule, "removal-site:%s" % K.meth(b.name), b.name, c.loc(), "a bar leaves the ordering only when the screen is brought in line: %s" % how,
                       "%s takes a bar out of the ordering without repainting the region or adjusting the row count: the terminal still shows the old frame, and when the "
                       "new head bar is dropped the in-place reap keeps the removed bar's row instead of its own (A,B,C; B.finish; remove(A); drop(B); tick(C) shows A, C)" % K.meth(b.name), cfg)
